@@ -120,18 +120,30 @@ func (c *Check) NotExhaustive(why string) {
 func (c *Check) Quick() bool { return c.Tier == "quick" }
 
 func (c *Check) loadKnown() {
-	b, err := os.ReadFile(filepath.Join(Root, "known_findings.json"))
-	if err != nil {
-		return
+	files := []string{filepath.Join(Root, "known_findings.json")}
+	// VERIF_KNOWN: an additional file, for trying out proposed entries (development only; the
+	// registered commands never set it).
+	if x := os.Getenv("VERIF_KNOWN"); x != "" {
+		files = append(files, x)
 	}
-	var all []Known
-	if err := json.Unmarshal(b, &all); err != nil {
-		fmt.Fprintln(os.Stderr, "known_findings.json:", err)
-		os.Exit(2)
-	}
-	for _, k := range all {
-		if k.Property == c.ID {
-			c.known = append(c.known, k)
+	for i, f := range files {
+		b, err := os.ReadFile(f)
+		if err != nil {
+			if i > 0 {
+				fmt.Fprintln(os.Stderr, "VERIF_KNOWN:", err)
+				os.Exit(2)
+			}
+			continue
+		}
+		var all []Known
+		if err := json.Unmarshal(b, &all); err != nil {
+			fmt.Fprintln(os.Stderr, f+":", err)
+			os.Exit(2)
+		}
+		for _, k := range all {
+			if k.Property == c.ID {
+				c.known = append(c.known, k)
+			}
 		}
 	}
 }
